@@ -53,6 +53,8 @@ type LogEntry struct {
 	Post     map[string]interface{} `json:"post"`
 	Injected bool                   `json:"injected,omitempty"`
 	BodyHash string                 `json:"bodyHash,omitempty"` // xxhash64 of the raw apply-patch body
+	// what this field manager applied to the target before (apply only): input of the Lean API model's cross-check
+	LastApplied map[string]interface{} `json:"lastApplied,omitempty"`
 	// hook calls (Verb == "hook") share the log so that the global order is recorded
 	Hook     string                 `json:"hook,omitempty"`
 	HookReq  map[string]interface{} `json:"hookReq,omitempty"`
@@ -99,6 +101,16 @@ func NewSim(defs []ResourceDef) *Sim {
 }
 
 func (s *Sim) Close() { s.Server.Close() }
+
+// Defs returns the resource definitions the simulator serves (written into every trace line: the Lean API model needs
+// to know which resources are namespaced / have a status subresource).
+func (s *Sim) Defs() []map[string]interface{} {
+	out := make([]map[string]interface{}, 0, len(s.defs))
+	for _, d := range s.defs {
+		out = append(out, map[string]interface{}{"group": d.Group, "resource": d.Resource, "namespaced": d.Namespaced, "hasStatus": d.HasStatus})
+	}
+	return out
+}
 func (s *Sim) URL() string { return s.Server.URL }
 
 func (s *Sim) def(group, resource string) *ResourceDef {
@@ -459,6 +471,9 @@ func (s *Sim) serve(w http.ResponseWriter, r *http.Request) {
 	if verb == "apply" {
 		e.Opts = map[string]interface{}{"fieldManager": q.Get("fieldManager"), "force": q.Get("force")}
 		e.BodyHash = rawPatch
+		if la := s.applied[q.Get("fieldManager")+"|"+key.String()]; la != nil {
+			e.LastApplied = DeepCopy(la).(map[string]interface{})
+		}
 	}
 	if verb == "patchRemove" {
 		e.Opts = map[string]interface{}{"patchType": r.Header.Get("Content-Type"), "patch": rawPatch}
